@@ -201,8 +201,48 @@ class Facts:
                 if len(cands) == 1:
                     self.fns[key] = self.fns[cands[0]]
                     return self.fns[key]
+            g = self._by_role(key)
+            if g is not None:
+                self.fns[key] = g
+                return g
             raise AnalysisError("anchor function missing: %s" % key)
         return f
+
+    # functions known by what they do: the one function of a crate that adds to the translation state's collection of lifted definitions
+    ROLES = {"fun2core::compile::share": ("fun2core", "adds-lifted-definition"), "core2axcut::statements::cut::lift": ("core2axcut", "adds-lifted-definition")}
+
+    def _by_role(self, key):
+        role = self.ROLES.get(key)
+        if not role:
+            return None
+        crate, _what = role
+        store = set()
+        for path, a in self.adts.items():
+            if path.split("::")[0] == crate and a["kind"] == "struct" and path.endswith("State"):
+                for fd in a["variants"][0]["fields"]:
+                    if ("VecDeque" in fd["ty"] or "Vec<" in fd["ty"]) and "Def" in fd["ty"]:
+                        store.add(fd["name"])
+        cands = []
+        for k, f in self.fns.items():
+            if f["crate"] != crate or "{" in k:
+                continue
+            touches = False
+            pushes = False
+            for b in f["blocks"]:
+                for s_ in b["stmts"]:
+                    if s_["k"] != "assign":
+                        continue
+                    rv = s_["rv"]
+                    pls = [rv.get("pl")] + [o.get("pl") for o in [rv.get("op"), rv.get("a"), rv.get("b")] + list(rv.get("ops", [])) if isinstance(o, dict)]
+                    for pl in pls:
+                        if pl and any(isinstance(e, dict) and e.get("n") in store for e in pl["p"]):
+                            touches = True
+                t = b["term"]
+                if t["k"] == "call" and t.get("callee_name") in ("push", "push_front", "push_back"):
+                    pushes = True
+            if touches and pushes:
+                cands.append(k)
+        return self.fns[cands[0]] if len(cands) == 1 else None
 
     def _by_signature(self, key):
         """A function that was renamed keeps its role when it is the only function of its crate with the signature the anchor had on
